@@ -64,3 +64,25 @@ Definition ex3_upsi := {| u_window := None; u_penalty := None; u_max_step := Non
 Example C03_begin_psi_witness :
   distp_model ex3_upsi [[5]; [5]; [0]]%Z [[0]; [0]]%Z (Fin 1) = Fin 0.
 Proof. vm_compute. reflexivity. Qed.
+
+(* THE C KERNEL AS WRITTEN (Gen_cdist.v: dtw_distance regenerated whole from dd_dtw.c, with its sc / ec / ec_next /
+   smaller_found / break bookkeeping): for EVERY bound - max_dist squared, or the oracle value of
+   euclidean_distance_squared with use_pruning - the result is the unpruned specification value cut at that bound,
+   never another finite number.  The other three kernels: C02_c_dtw_distance_*_as_written. *)
+From DV Require Import Engines Bounds CLang CDistSpec.
+From DVGen Require Import Gen_cdist.
+
+Theorem C03_c_kernel_result_is_bounded_value :
+  forall (window p m mld : Z) (p1b p1e p2b p2e : nat) (junk : Z -> cost), (0 <= window)%Z -> (0 <= p)%Z ->
+  forall (f1 f2 : list Z) (ce ced cub : cost) (idist : Z) (md : cost) (prune : bool),
+  (1 <= length f1)%nat -> (1 <= length f2)%nat -> (p1b < length f1 \/ p2e < length f2)%nat -> (idist =? 1)%Z = false ->
+  c_dtw_distance ce ced cub junk f1 (Z.of_nat (length f1)) f2 (Z.of_nat (length f2)) idist md mld (Fin m) false (Fin p)
+                 (Z.of_nat p1b) (Z.of_nat p1e) (Z.of_nat p2b) (Z.of_nat p2e) prune window =
+  ((if too_long (c_to_u (cs_of window p m mld (psi4 p1b p1e p2b p2e) SqEuclid)) (scal f1) (scal f2) then RPlain Inf
+    else RSqrt (bounded (c_bound_sq prune ced md)
+                  (dtw_value (c_to_u (cs_of window p m mld (psi4 p1b p1e p2b p2e) SqEuclid)) (scal f1) (scal f2)))), true).
+Proof. exact c_dtw_distance_spec. Qed.
+
+(* without a bound (max_dist = 0, no pruning) nothing is cut *)
+Theorem C03_c_kernel_no_bound_no_cut : forall ced v, bounded (c_bound_sq false ced (Fin 0)) v = v.
+Proof. intros ced v. unfold c_bound_sq, bounded. cbn. destruct v; reflexivity. Qed.
